@@ -141,6 +141,38 @@ theorem fraction_layouts (i n d : String) (g : Nat) :
       some (.bop .minus (.neg (.num i)) (.bop .div (.num n) (.num d)), []) :=
   ⟨improper_fraction_parse n d g, mixed_fraction_parse i n d g, neg_mixed_fraction_parse i n d g⟩
 
+/-- **number-unit juxtaposition sits at the multiplicative level**: for every operator of a lower level — `+ - << >> & xor | nCr
+nPr` — `a u OP b v` is `(a u) OP (b v)`; with `*` / `/` it groups from the left, `a u * b v` = `((a u) * b) v`; and `^`, `!`,
+unary minus bind tighter: `a u^k` = `a (u^k)`, `a u!` = `a (u!)`, `-a u` = `(-a) u`.  For any number strings `a b k` and
+any identifiers `u v` (other than the modulo sign `%`), with any fuel from 60 up. -/
+theorem juxtaposition_level (a u b v k : String) (hu : u ≠ "%") (hv : v ≠ "%") (g : Nat) :
+    (∀ s op, (s, op) ∈ [(Sym.add, Bop.plus), (.sub, .minus), (.shl, .shl), (.shr, .shr), (.bitAnd, .bitAnd), (.bitXor, .bitXor),
+        (.bitOr, .bitOr), (.comb, .comb), (.perm, .perm)] →
+      run (g + 60) .statements [.num a, .ident u, .sym s, .num b, .ident v] =
+        some (.bop op (.applyMul (.num a) (.ident u)) (.applyMul (.num b) (.ident v)), [])) ∧
+    run (g + 60) .statements [.num a, .ident u, .sym .mul, .num b, .ident v] =
+      some (.apply (.bop .mul (.applyMul (.num a) (.ident u)) (.num b)) (.ident v), []) ∧
+    run (g + 60) .statements [.num a, .ident u, .sym .div, .num b, .ident v] =
+      some (.apply (.bop .div (.applyMul (.num a) (.ident u)) (.num b)) (.ident v), []) ∧
+    run (g + 60) .statements [.num a, .ident u, .ident v] = some (.applyMul (.applyMul (.num a) (.ident u)) (.ident v), []) ∧
+    run (g + 60) .statements [.num a, .ident u, .sym .pow, .num k] = some (.apply (.num a) (.bop .pow (.ident u) (.num k)), []) ∧
+    run (g + 60) .statements [.num a, .ident u, .sym .fact] = some (.applyMul (.num a) (.fact (.ident u)), []) ∧
+    run (g + 60) .statements [.sym .sub, .num a, .ident u] = some (.apply (.neg (.num a)) (.ident u), []) := by
+  obtain ⟨m1, m2, m3⟩ := jux_mul a u b v hu hv g
+  obtain ⟨t1, t2, t3⟩ := jux_tighter a u k hu g
+  refine ⟨fun s op h => ?_, m1, m2, m3, t1, t2, t3⟩
+  simp only [List.mem_cons, Prod.mk.injEq, List.mem_nil_iff, or_false] at h
+  rcases h with ⟨rfl, rfl⟩ | ⟨rfl, rfl⟩ | ⟨rfl, rfl⟩ | ⟨rfl, rfl⟩ | ⟨rfl, rfl⟩ | ⟨rfl, rfl⟩ | ⟨rfl, rfl⟩ | ⟨rfl, rfl⟩ | ⟨rfl, rfl⟩
+  · exact jux_add a u b v hu hv g
+  · exact jux_sub a u b v hu hv g
+  · exact jux_shl a u b v hu hv g
+  · exact jux_shr a u b v hu hv g
+  · exact jux_bitAnd a u b v hu hv g
+  · exact jux_bitXor a u b v hu hv g
+  · exact jux_bitOr a u b v hu hv g
+  · exact jux_comb a u b v hu hv g
+  · exact jux_perm a u b v hu hv g
+
 -- non-vacuity: `a = b = 1 == 2 ; 3 != 4 ; 5` is stmts (stmts (assign a (assign b (1 == 2))) (3 != 4)) 5
 private def c6 (n : String) : Chain 6 := .up (.up (.up (.up (.up (.up (num n))))))
 private def exTop : AsT := .assign "a" (.assign "b" (.plain (.cmp true (c6 "1") (c6 "2"))))
